@@ -1,9 +1,15 @@
 """C33 repair index rebuilds an index that describes the stored packs exactly."""
+from concurrent.futures import ThreadPoolExecutor
 from props import repo_common
 
 
 def run(ctx):
-    design = repo_common.repair_design_runs(ctx)
-    out = ctx.go_test("cmd/restic", "^TestVerif_C33$", timeout=3300)
+    # the design-model runs (RepoRepair.tla twins) do not depend on the driver: run them beside it
+    with ThreadPoolExecutor(1) as ex:
+        fut = ex.submit(repo_common.repair_design_runs, ctx)
+        out = ctx.go_test("cmd/restic", "^TestVerif_C33$", timeout=3300)
+        design = fut.result()
     # the storage invariants hold relative to the damage baseline; the strict post-condition is RepairIndexExact
-    return repo_common.finish_trace(ctx, out, "model_checking", extra_cov={"design_model_runs": design})
+    return repo_common.finish_trace(ctx, out, "model_checking", extra_cov={"design_model_runs": design},
+                                    assumptions=["one-shot read faults (a Load that fails or delivers garbage once and is served correctly when repeated) leave a pack 'readable'; a pack whose header read fails on every attempt of a run counts as unreadable for that run and is not explored",
+                                                 "index.Full is lowered to 3..8 blobs in part of the scenarios (while the repository is built and repaired) so that small repositories have several full index files; Oversized keeps the production rule"])
